@@ -114,6 +114,21 @@ impl<'a> Builder<'a> {
         }
     }
 
+    pub fn plit(&self, e: &J) -> PoeticNumberLiteral {
+        PoeticNumberLiteral {
+            elems: e["elems"]
+                .as_array()
+                .unwrap()
+                .iter()
+                .map(|x| match s(x, "k") {
+                    "w" => PoeticNumberLiteralElem::Word(jv::concretise(s(x, "s"))),
+                    "s" => PoeticNumberLiteralElem::WordSuffix(jv::concretise(s(x, "s"))),
+                    _ => PoeticNumberLiteralElem::Dot,
+                })
+                .collect(),
+        }
+    }
+
     pub fn stmts(&self, ss: &J) -> Vec<Statement> {
         ss.as_array().unwrap().iter().map(|x| self.stmt(x)).collect()
     }
@@ -134,7 +149,11 @@ impl<'a> Builder<'a> {
             ),
             "pnum" => Statement::PoeticAssignment(PoeticAssignment::Number(PoeticNumberAssignment {
                 dest: self.lhs(&j["dest"], l),
-                rhs: PoeticNumberAssignmentRHS::Expression(self.expr(&j["e"], l)),
+                rhs: if s(&j["e"], "e") == "plit" {
+                    PoeticNumberAssignmentRHS::PoeticNumberLiteral(self.plit(&j["e"]))
+                } else {
+                    PoeticNumberAssignmentRHS::Expression(self.expr(&j["e"], l))
+                },
             })),
             "pstr" => Statement::PoeticAssignment(PoeticAssignment::String(PoeticStringAssignment {
                 dest: self.lhs(&j["dest"], l),
@@ -202,6 +221,8 @@ impl<'a> Builder<'a> {
                     array: self.primary(&j["a"], l),
                     value: if vals.is_empty() {
                         None
+                    } else if s(&vals[0], "e") == "plit" {
+                        Some(ArrayPushRHS::PoeticNumberLiteral(self.plit(&vals[0])))
                     } else {
                         Some(ArrayPushRHS::ExpressionList(elist(vals.iter().map(|x| self.expr(x, l)).collect())))
                     },
